@@ -6,13 +6,19 @@ import json, os, subprocess, sys, tempfile, shutil, re
 ROOT = os.path.dirname(os.path.dirname(os.path.abspath(__file__)))
 known = json.load(open(os.path.join(ROOT, 'known_findings.json')))['findings']
 only = set(sys.argv[1:])
-out = []
+outp = os.path.join(ROOT, 'selftest', 'fixed_validation.json')
+out = json.load(open(outp)) if os.path.exists(outp) else []
+skip_done = '--missing' in sys.argv
+only.discard('--missing')
 for k in known:
     if k.get('status') != 'fixed':
         continue
     prop, commit = k['property'], k['commit']
     if only and prop not in only:
         continue
+    if skip_done and any(r['commit'] == commit and r['result'] == 'detected' for r in out):
+        continue
+    out = [r for r in out if r['commit'] != commit]
     tmp = tempfile.mkdtemp(prefix='aslfixed.', dir='/tmp')
     wt = os.path.join(tmp, 'wt')
     r = dict(property=prop, commit=commit, what=k['line'][:160])
